@@ -662,7 +662,8 @@ def replay_dbc_tv(d):
             continue
         db = cantools.database.load_string(f[0]["contents"], database_format="dbc")
         own = read_dbc(f[0]["contents"])
-        lay = enc.generate(impl)
+        # the layout of a binding does not depend on what an encoder laid out before (C04): a fresh encoder per binding
+        lay = make_encoder("packed", fcp, PackedEncoderContext().with_unroll_arrays(True)).generate(impl)
         bits = lay[-1].bitstart + lay[-1].bitlength
         try:
             msg = db.get_message_by_frame_id(impl.fields["id"])
